@@ -475,3 +475,26 @@ def body_holding(prog, key, call_rx):
             return hv
         work += list(prog.async_helpers.get(h, []))
     return main
+
+
+def bool_true_requires(fv, name, brs=None, depth=2):
+    """Conditions that hold whenever the bool local `name` is true: the guards common to all of its definitions that can assign
+    true (a constant false arm -- the short-circuit side of `a && b`, the initial value of a flag -- cannot).  Returned as
+    flat_guards triples; used to read `let notify = !deferring && (x || y); if notify {..}` like the nested ifs it abbreviates."""
+    from .cfg import flat_guards, branches
+    brs = brs or branches(fv)
+    ls = [l for l, n in fv.local_name.items() if n == name and l < len(fv.f["locals"]) and fv.f["locals"][l] == "bool"]
+    common = None
+    for l in ls:
+        for bi, si, st in fv.defs().get(l, []):
+            if bi not in fv.live:
+                continue
+            if si != "t" and st["rv"]["r"] == "use" and "k" in st["rv"]["o"] and st["rv"]["o"]["k"].get("v") == 0:
+                continue
+            gs = set()
+            for g, lab, how in flat_guards(fv, bi, brs):
+                gs.add((g, frozenset(lab), how))
+                if depth > 0 and isinstance(g, tuple) and g and g[0] == "var" and set(lab) == {"true"}:
+                    gs |= {(g2, frozenset(l2), h2) for g2, l2, h2 in bool_true_requires(fv, g[1], brs, depth - 1)}
+            common = gs if common is None else (common & gs)
+    return [(g, set(lab), how) for g, lab, how in (common or set())]
